@@ -1,9 +1,51 @@
 import UF.Driver.Decode
+import UF.Compose2.MatchFull
 /- Ops of work group I2 (see notes/AGENT_GUIDE.md). Return `none` for ops of other groups. -/
+namespace UF.Ops.I2
+open UF UF.I2
+
+/-- `i2.pat <stored pattern> <matchCase> <target>`: model = `modelPat` (`ood` outside its domain);
+    spec = the documented mask language for patterns that are not `/regex/`. -/
+def opPat (args : List W) : String :=
+  match args with
+  | [p, mc, u] =>
+    match p.bytes?, mc.bool?, u.bytes? with
+    | some p, some mc, some u =>
+      match modelPat p mc u with
+      | none => "ood -"
+      | some b =>
+        outBool b ++ " " ++
+          (if UF.isRegexPattern p then "-" else outBool (MaskSpec.maskAccepts (MaskSpec.tokenize p) mc u))
+    | _, _, _ => "bad-decode"
+  | _ => "bad-arity"
+
+/-- `i2.match <R> <Q> <psl> <addrs>`: the whole of `NetworkRule.Match` in the model — NO pattern oracle:
+    `Ext.pat` is `modelPat`.  `ood` when the pattern answer is needed and outside the models' domain.
+    spec = `specMatchFull` (mask rules, request in the domain of C04) or `specMatch` over `modelPat`. -/
+def opMatch (args : List W) : String :=
+  match args with
+  | [r, q, psl, addrs] =>
+    match decNetRule r, decRequest q, decPslTable psl, decAddrTable addrs with
+    | some r, some q, some psl, some addrs =>
+      let ext := withModelPat (mkExt psl addrs [])
+      if !matchDecided ext r q then "ood -" else
+      let spec :=
+        if !q.inDomainB then "-"
+        else if (modelPat r.pattern (r.isEnabled Facts.OptionMatchCase) (matchTarget r q)).isSome then
+          if UF.isRegexPattern r.pattern then outBool (specMatch ext r q) else outBool (specMatchFull ext r q)
+        else "-"
+      outBool (r.matches ext q) ++ " " ++ spec
+    | _, _, _, _ => "bad-decode"
+  | _ => "bad-arity"
+
+end UF.Ops.I2
+
 namespace UF.Ops
 
 def dispatchI2 (op : String) (args : List W) : Option String :=
-  match op, args with
-  | _, _ => none
+  match op with
+  | "i2.pat" => some (I2.opPat args)
+  | "i2.match" => some (I2.opMatch args)
+  | _ => none
 
 end UF.Ops
